@@ -246,6 +246,9 @@ class Hier:
     shape: str = "chain"
     classes: list[type] = field(default_factory=list)
     module: Any = None
+    ns: Any = None                # the globals the class statements are executed in
+    variant: int | None = None    # twins: same module, same class names, same field names / kinds / flags,
+                                  # but their own Field objects (other metadata, other defaults)
 
     def __post_init__(self):
         if not self.bases:
@@ -292,13 +295,15 @@ class Hier:
         for f in self.levels[k]:
             args = []
             if f.default is not None:
-                args.append(f"default={f.default}")
+                args.append(f"default={self._default_src(f)}")
             if not f.init:
                 args.append("init=False")
             if not f.compare:
                 args.append("compare=False")
             if f.kw_only:
                 args.append("kw_only=True")
+            if self.variant is not None:
+                args.append(f"metadata={{'variant': {self.variant}}}")
             if not args:
                 out.append(f"    {f.name}: {f.ann}")
             elif args == [f"default={f.default}"]:
@@ -306,6 +311,17 @@ class Hier:
             else:
                 out.append(f"    {f.name}: {f.ann} = field({', '.join(args)})")
         return "\n".join(out) + "\n"
+
+    def _default_src(self, f: FSpec) -> str:
+        """the second twin declares other defaults where the shape allows it"""
+        if self.variant == 1 and f.kind == "p" and f.default is not None:
+            if f.vclass == "int":
+                return repr(f.default_val + 1)
+            if f.vclass == "str":
+                return repr(f.default_val + "'")
+            if f.vclass == "tint":
+                return repr(f.default_val + (9,))
+        return f.default
 
     def header(self) -> str:
         h = "from __future__ import annotations\n" if self.postponed else ""
@@ -319,12 +335,24 @@ class Hier:
         name = f"c12gen_{self.uid}"
         self.module = types.ModuleType(name)
         sys.modules[name] = self.module
-        exec(self.header(), self.module.__dict__)
+        self.ns = self.module.__dict__
+        exec(self.header(), self.ns)
+
+    def twin(self, variant: int) -> "Hier":
+        """the same family once more **in the same module under the same class names** (what calling a class
+        factory twice, or re-executing the class statements, produces): the classes of the twin are distinct
+        objects with the same __module__ and __qualname__ as their counterparts"""
+        t = Hier(self.uid, self.levels, self.postponed, self.bases, self.shape)
+        t.module = self.module
+        t.variant = variant
+        t.ns = {"__name__": self.module.__name__}
+        exec(self.header(), t.ns)
+        return t
 
     def define(self, k: int) -> type:
         assert len(self.classes) == k
-        exec(self.source_level(k), self.module.__dict__)
-        cls = self.module.__dict__[self.cname(k)]
+        exec(self.source_level(k), self.ns)
+        cls = self.ns[self.cname(k)]
         self.classes.append(cls)
         return cls
 
